@@ -1232,7 +1232,8 @@ udp_ep_init(
 	ep->tx_ring.descs =
 	    NNI_ALLOC_STRUCTS(ep->tx_ring.descs, NNG_UDP_TXQUEUE_LEN);
 	if (ep->tx_ring.descs == NULL) {
-		NNI_FREE_STRUCT(ep);
+		// The endpoint lives inside the dialer or listener, and
+		// udp_ep_fini is called for it even when init fails.
 		return (NNG_ENOMEM);
 	}
 	ep->tx_ring.size = NNG_UDP_TXQUEUE_LEN;
@@ -1258,7 +1259,7 @@ udp_ep_init(
 	ep->copymax          = NNG_UDP_COPYMAX;
 	ep->max_peers        = NNG_UDP_MAX_PEERS;
 	if ((rv = nni_msg_alloc(&ep->rx_payload, ep->rcvmax)) != 0) {
-		NNI_FREE_STRUCTS(ep->tx_ring.descs, NNG_UDP_TXQUEUE_LEN);
+		// udp_ep_fini releases the transmit ring.
 		return (rv);
 	}
 
